@@ -13,7 +13,7 @@ Section CoreRun.
   Variable AND : bool.
 
   Lemma do_action_frozen s l a : frozen mx (do_action q blanks AND s l a) = frozen mx s.
-  Proof. destruct a as [? ?|? ?|? ?|? ?|? ?|g]; cbn; try (destruct (rev _)); cbn; auto. destruct g; cbn; try (destruct (dget _ _ _) as [[]|]); cbn; auto. Qed.
+  Proof. destruct a as [? ?|? ?|? ?|? ?|? ?|g]; cbn; try (destruct (rev _)); cbn; auto. destruct g; cbn; try (destruct (dget _ _ _) as [[]|]); try (destruct (is_blank_text _)); cbn; auto. Qed.
   Lemma eval_frozen c s l : frozen mx (fst (eval q blanks AND c s l)) = frozen mx s.
   Proof.
     destruct c as [b|a|b a|g]; cbn; auto using do_action_frozen.
@@ -78,9 +78,11 @@ Section CoreRun.
 
   Lemma do_agg_frame s l g d : writes g <> Some d -> forall key, dget (x mx (fst (do_agg blanks AND s l g))) d key = dget (x mx s) d key.
   Proof.
-    intros Hw key. destruct g as [i|nm i|nm i n|nm k|nm e|nm i e|nm key' e]; cbn [do_agg writes] in *;
+    intros Hw key. destruct g as [i|nm i|nm i n|nm k|nm e|nm i e|nm key' e|i|i j]; cbn [do_agg writes] in *;
       try (cbn [fst x with_mx]; first [reflexivity | apply dget_dset_other_dict; intros E0; apply Hw; rewrite E0; reflexivity]).
-    destruct (dget (x mx s) nm (hdr_key l i)) as [[z'|z'|t|]|]; cbn [fst x with_mx]; try reflexivity;
+    - destruct (dget (x mx s) nm (hdr_key l i)) as [[z'|z'|t|]|]; cbn [fst x with_mx]; try reflexivity;
+        apply dget_dset_other_dict; intros E0; apply Hw; rewrite E0; reflexivity.
+    - destruct (is_blank_text (tally_text l i)); cbn [fst x with_mx]; [reflexivity|].
       apply dget_dset_other_dict; intros E0; apply Hw; rewrite E0; reflexivity.
   Qed.
 
@@ -191,9 +193,10 @@ Section CoreRun.
   Lemma do_agg_frame_var s l g v : (match g with Counter nm _ | Sum nm _ => nm <> v | _ => True end) ->
     lookup v (vars (x mx (fst (do_agg blanks AND s l g)))) = lookup v (vars (x mx s)).
   Proof.
-    intros Hw. destruct g as [i|nm i|nm i n|nm k|nm e|nm i e|nm key' e]; cbn [do_agg]; try reflexivity;
+    intros Hw. destruct g as [i|nm i|nm i n|nm k|nm e|nm i e|nm key' e|i|i j]; cbn [do_agg]; try reflexivity;
       try (cbn [fst x with_mx vars]; apply lookup_update_other; exact Hw).
-    destruct (dget (x mx s) nm (hdr_key l i)) as [[z'|z'|t|]|]; reflexivity.
+    - destruct (dget (x mx s) nm (hdr_key l i)) as [[z'|z'|t|]|]; reflexivity.
+    - destruct (is_blank_text (tally_text l i)); reflexivity.
   Qed.
 
   Lemma do_action_frame_var s l a v : (match a with AssignN w _ | AssignS w _ | Pop w _ => w <> v | Agg (Counter w _) | Agg (Sum w _) => w <> v | _ => True end) ->
@@ -241,7 +244,7 @@ Section CoreRun.
     unfold init_vars. induction cs as [|c cs IH]; intros vs; [reflexivity|]. cbn [fold_left]. rewrite IH.
     unfold comp_init. destruct c as [b|a|b a|g]; try reflexivity;
       try (destruct a as [? ?|? ?|? ?|? ?|? ?|g]; try reflexivity);
-      (destruct g as [i|nm i|nm i n|nm k|nm e|nm i e|nm key' e]; try reflexivity; cbn [agg_init]; destruct (lookup nm vs); [reflexivity|apply lookup_app_num]).
+      (destruct g as [i|nm i|nm i n|nm k|nm e|nm i e|nm key' e|i|i j]; try reflexivity; cbn [agg_init]; destruct (lookup nm vs); [reflexivity|apply lookup_app_num]).
   Qed.
 
   Definition counter_once (nm k : Z) (cs : list comp) : Prop :=
